@@ -147,16 +147,23 @@ def check_behaviour(run, k, beh, ulaw, tmp, rng):
             except Exception as e:
                 run.violation({"kind": "unknown_shorten_version_wrong_exception", "version": ver, "raised": repr(e)})
         # QUIT (0,1,0,0) replaced by the out-of-format command 9: bits 0,0,1,0,1
+        # (... and by 10 and 13, each also with plenty of stream after it: an undefined code is refused for what it is, not
+        # because the decoder runs out of bits while treating it as something else)
         if bits[-4:] == [0, 1, 0, 0]:
-            t = sph_wrap(hdr, b"ajkg" + bytes([hdr["version"]]) + pack(bits[:-4] + [0, 0, 1, 0, 1]), frames)
-            run.evaluations += 1
-            try:
-                util.read_signal(io.BytesIO(t), force_as="sph")
-                run.violation({"kind": "unknown_shorten_command_accepted", "hdr": hdr})
-            except IOError:
-                pass
-            except Exception as e:
-                run.violation({"kind": "unknown_shorten_command_wrong_exception", "hdr": hdr, "raised": repr(e)})
+            for code_bits in ([0, 0, 1, 0, 1], [0, 0, 1, 1, 0], [0, 0, 0, 1, 0, 1]):
+                for filler in ([], [int(b) for b in np.random.RandomState(len(bits)).randint(0, 2, size=320)]):
+                    t = sph_wrap(hdr, b"ajkg" + bytes([hdr["version"]]) + pack(bits[:-4] + code_bits + filler), frames)
+                    run.evaluations += 1
+                    try:
+                        with warnings.catch_warnings():
+                            warnings.simplefilter("ignore")
+                            util.read_signal(io.BytesIO(t), force_as="sph")
+                        run.violation({"kind": "unknown_shorten_command_accepted", "hdr": hdr, "code_bits": code_bits, "bits_after": len(filler)})
+                    except IOError:
+                        pass
+                    except Exception as e:
+                        run.violation({"kind": "unknown_shorten_command_wrong_exception", "hdr": hdr, "raised": repr(e), "code_bits": code_bits,
+                                       "bits_after": len(filler)})
     return True
 
 
